@@ -41,9 +41,20 @@ def gen_ops(fam, rng, helper, nops, meta=None):
         if d:
             kws.append(f"dialect={d}")
         val, tree = F.gen_value(fam, i, rng)
+        # everything a first (stub) call has to forward: flags, encoder kwargs, encoder/decoder, dialect, context
         pkws = list(kws)
         if c.get("onf") and rng.random() < 0.5:
             pkws.append("omit_none=True")
+        wire_pack = f"{val}.{pk}({', '.join(pkws)})"
+        if c.get("baf") and rng.random() < 0.5:
+            pkws.append("by_alias=True")
+        if c.get("ctx") and rng.random() < 0.5:
+            pkws.append("context={'k': %d}" % rng.randint(0, 9))
+        if fmt == "orjson" and rng.random() < 0.5:
+            pkws.append("orjson_options=" + rng.choice(["orjson.OPT_SORT_KEYS | orjson.OPT_INDENT_2", "orjson.OPT_INDENT_2",
+                                                        "orjson.OPT_APPEND_NEWLINE"]))
+        if fmt != "dict" and rng.random() < 0.25:
+            pkws.append("encoder=enc_mark")
         pack = f"{val}.{pk}({', '.join(pkws)})"
         r = rng.random()
         if r < 0.5:
@@ -51,8 +62,13 @@ def gen_ops(fam, rng, helper, nops, meta=None):
             if meta is not None:
                 meta.append({"cls": i, "fmt": fmt, "pack": True, "dialect": d, "tree": tree, "valid": True})
             continue
+        ukws = list(kws)
         try:
-            wire = eval(pack, helper.__dict__)
+            if fmt != "dict" and rng.random() < 0.3:
+                wire = repr(eval(f"{val}.to_dict({', '.join(kws)})", helper.__dict__))
+                ukws.append("decoder=dec_lit")
+            else:
+                wire = eval(wire_pack, helper.__dict__)
         except BaseException:
             continue
         if r > 0.93 and isinstance(wire, dict) and wire:
@@ -61,16 +77,16 @@ def gen_ops(fam, rng, helper, nops, meta=None):
             valid = False
         else:
             valid = True
-        ops.append(f"{c['name']}.{up}({wire!r}{', ' + ', '.join(kws) if kws else ''})")
+        ops.append(f"{c['name']}.{up}({wire!r}{', ' + ', '.join(ukws) if ukws else ''})")
         if meta is not None:
             meta.append({"cls": i, "fmt": fmt, "pack": False, "dialect": d, "tree": tree, "valid": valid})
     return ops
 
 
-def gen_case(rng, nops=6, max_classes=5):
+def gen_case(rng, nops=6, max_classes=5, focus=None):
     """a family, a compilation mode and an op history; None when the family cannot even be created eagerly
     (e.g. mutually recursive plain dataclasses: outside the property's families)"""
-    fam = F.gen_family(rng, max_classes)
+    fam = F.gen_family(rng, max_classes, focus)
     n = len(fam["classes"])
     topo = F.topo_order(fam)
     twin_src = F.render(fam, topo, [False] * n)
@@ -127,11 +143,55 @@ def has_class_cycle(fam) -> bool:
     return any(i in reach(i) for i in range(n))
 
 
+def has_dsup_gap(fam) -> bool:
+    """a class WITHOUT ADD_DIALECT_SUPPORT that inherits from a class WITH it: it inherits the parent's
+    __dialect_*_cache__ attributes (the generated `cls.<cache>[dialect] = f` then writes into the parent's dict)"""
+    cl = fam["classes"]
+    for c in cl:
+        p = c["parent"]
+        while p is not None:
+            if cl[p]["dsup"] and not c["dsup"]:
+                return True
+            p = cl[p]["parent"]
+    return False
+
+
+def inherited_method_gap(fam, snap) -> bool:
+    """some class C was compiled on demand for a dialect only (its dialect cache of a format/direction is filled)
+    and has no own nested method of that format/direction, while an ancestor has one: the generated call
+    C.__mashumaro_<dir>_dict[_<fmt>]__ then resolves through the MRO to the ancestor's code"""
+    cl = fam["classes"]
+    for c in cl:
+        own = snap.get(c["name"])
+        if not own or c["parent"] is None:
+            continue
+        for cname, ds in own["c"].items():
+            if not ds:
+                continue
+            mm = re.match(r"^(\w+)_(packer|unpacker)$", cname)
+            if not mm:
+                continue
+            name = ("to" if mm.group(2) == "packer" else "from") + "_dict" + ("" if mm.group(1) == "dict" else "_" + mm.group(1))
+            if name in own["m"]:
+                continue
+            p = c["parent"]
+            while p is not None:
+                if name in snap.get(cl[p]["name"], {"m": {}})["m"]:
+                    return True
+                p = cl[p]["parent"]
+    return False
+
+
 def classify(fam, op, got, exp, got_aux, exp_aux, got_snap, exp_snap, src="") -> dict:
     """signature of a difference between the family under test (`got`) and the fresh eager twin (`exp`).
     kind is one of the known-finding kinds only when the precise predicate of that finding holds on the
     side that failed; otherwise 'history-dependence' (= a violation)."""
     sig = {"kind": "history-dependence", "got": got[1] if got[0] == "EXC" else "OK", "exp": exp[1] if exp[0] == "EXC" else "OK"}
+    for side, snap in (("family", got_snap), ("twin", exp_snap)):
+        if "dialect=" in op and fam["classes"] and inherited_method_gap(fam, snap):
+            # dialect call before the default compile, on a subclass whose parent already has the nested method:
+            # the parent's code runs on the subclass (TypeError for required fields, silently dropped fields otherwise)
+            return {**sig, "kind": "dialect-build-uses-inherited-parent-method", "side": side}
     for side, out, aux, snap in (("family", got, got_aux, got_snap), ("twin", exp, exp_aux, exp_snap)):
         other = exp if side == "family" else got
         if out[0] != "EXC" or out == other:
@@ -148,6 +208,11 @@ def classify(fam, op, got, exp, got_aux, exp_aux, got_snap, exp_snap, src="") ->
             if aux.get("rec") == "build-cycle" and has_class_cycle(fam):
                 # on-demand nested compilation follows a class cycle whose methods are installed only at the end
                 return {**sig, "kind": "ondemand-build-cycle", "side": side}
+        if (len(out) > 4 and out[3] == "TypeError" and "unexpected keyword argument 'dialect'" in out[4] and "dialect=" in op
+                and (has_dsup_gap(fam) or not fam["classes"])):
+            # an earlier dialect-specific on-demand build of a subclass without dialect support stored ITS function
+            # in the inherited cache of the parent class
+            return {**sig, "kind": "dialect-cache-inherited-by-subclass", "side": side}
         if len(out) > 4 and out[3] == "AttributeError" and "dialect=" in op and ATTR_RE.search(out[4]):
             # a dialect-specific build met a nested class whose default method was not compiled yet
             return {**sig, "kind": "dialect-call-before-default-compile", "side": side}
@@ -162,7 +227,15 @@ def run_history(case, upto=None, collect=None):
     """run the ops of a case on a fresh family under test; yields (index, op, got, exp, signature|None).
     Stops at the first difference (the state after a failure is not a state the property talks about)."""
     fam = case["fam"]
-    mod = F.load(case["src"], "m")
+    try:
+        mod = F.load(case["src"], "m")
+    except BaseException as e:
+        # the twin (other definition order / eager) could be created, this family cannot: the class statements
+        # themselves depend on order / mode
+        got = F.canon_exc(e)
+        gaux = {"rec": F.recursion_kind(e)} if got[1] == "RecursionError" else {}
+        sig = classify(fam, "<class creation>", got, ["OK", "created"], gaux, {}, {}, {}, case["src"])
+        return [(0, "<class creation>", got, ["OK", "created"], sig)]
     res = []
     try:
         if collect is not None:
@@ -193,9 +266,9 @@ def short(x, n=400):
     return s if len(s) <= n else s[:n] + "..."
 
 
-def oracle_histories(ctx: vlib.Ctx, n: int, keep_cases=None):
+def oracle_histories(ctx: vlib.Ctx, n: int, keep_cases=None, focus=None):
     for _ in range(n):
-        case = gen_case(ctx.rng, nops=ctx.rng.randint(3, 8))
+        case = gen_case(ctx.rng, nops=ctx.rng.randint(3, 8), focus=focus)
         if "skip" in case:
             ctx.hist("families", case["skip"])
             continue
@@ -207,7 +280,10 @@ def oracle_histories(ctx: vlib.Ctx, n: int, keep_cases=None):
             feats.add(c["kind"])
             feats.update("mixin:" + m for m in c["mixins"])
             if c["generic"]:
-                feats.add("generic")
+                feats.add("generic" + str(c["generic"]))
+            for o in ("onf", "baf", "ctx"):
+                if c.get(o):
+                    feats.add("flag:" + o)
             if c["dsup"]:
                 feats.add("dialect-support")
             if c["parent"] is not None:
@@ -217,6 +293,10 @@ def oracle_histories(ctx: vlib.Ctx, n: int, keep_cases=None):
                     feats.add("self-ref" if t[1] == i else ("forward-ref" if t[1] > i else "nested"))
                     if t[3]:
                         feats.add("specialisation")
+                        if any(a.startswith("aux") for a in t[3]):
+                            feats.add("targ:same-named-classes")
+                        if "listint" in t[3]:
+                            feats.add("targ:nested")
         for f in feats:
             ctx.hist("features", f)
         snaps = []
@@ -228,6 +308,8 @@ def oracle_histories(ctx: vlib.Ctx, n: int, keep_cases=None):
         for k, op, got, exp, sig in res:
             m = re.search(r"\.(to|from)_(\w+)\(", op)
             ctx.hist("ops", (m.group(1) + "_" + m.group(2)) if m else "?")
+            for kw in re.findall(r"(omit_none|by_alias|context|orjson_options|encoder|decoder|dialect)=", op[op.rfind(")."):] if ")." in op else op):
+                ctx.hist("call kwargs", kw + ("@first-call" if k == 0 else ""))
             ctx.hist("outcome", exp[0] if exp[0] == "OK" else "EXC:" + exp[1])
             ctx.count((case["mode"], tuple(sorted(feats)), m.group(0) if m else op[:10], "dialect=" in op, k == 0))
             if sig is not None:
@@ -279,6 +361,24 @@ class B(A):
     z: int = 0
 """, ["B(z=1, b=B(z=2)).to_jsonb()", "A(bs=[B(z=3)]).to_msgpack()", "A.from_json(b'{\"b\": {\"z\": 4}}')",
       "B.from_msgpack(msgpack.packb({'z': 5, 'bs': [{'z': 6}]}))", "A(b=B()).to_dict()"]),
+    ("dialect cache inherited by a subclass without dialect support", """
+@dataclass(kw_only=True)
+class K0(DataClassORJSONMixin):
+    a: int = 0
+    class Config(BaseConfig):
+        code_generation_options = [ADD_DIALECT_SUPPORT]
+@dataclass(kw_only=True)
+class K1(K0):
+    b: int = 1
+    class Config(BaseConfig):
+        code_generation_options = []
+@dataclass(kw_only=True)
+class K3(DataClassORJSONMixin):
+    ks: Dict[str, K1] = field(default_factory=dict)
+    class Config(BaseConfig):
+        lazy_compilation = True
+        code_generation_options = [ADD_DIALECT_SUPPORT]
+""", ["K3(ks={}).to_jsonb(dialect=D1)", "K0(a=5).to_jsonb(dialect=D1)"]),
     ("discriminated hierarchy, two formats", """
 @dataclass
 class Base(DataClassMessagePackMixin):
@@ -355,7 +455,10 @@ def oracle_threads(ctx: vlib.Ctx, nfam: int, reps: int):
             ops, exps = [], []
             for op in case["ops"][:2]:
                 exp = fresh_expected(case["twin_src"], op)
-                m = F.load(case["src"], "s")
+                try:
+                    m = F.load(case["src"], "s")
+                except BaseException:
+                    break
                 try:
                     got = F.run_op(m, op)
                 finally:
@@ -403,10 +506,16 @@ def run(ctx: vlib.Ctx):
         from harness.props import c14_coq
         c14_coq.theorems(ctx)
         cases = []
-        oracle_histories(ctx, ctx.budget(220, 2500), keep_cases=cases)
-        c14_coq.correspondence(ctx, cases)
+        oracle_histories(ctx, ctx.budget(120, 1500), keep_cases=cases)
+        oracle_histories(ctx, ctx.budget(40, 400), keep_cases=cases, focus="spec")
+        oracle_histories(ctx, ctx.budget(40, 400), keep_cases=cases, focus="kwargs")
+        tie_ok = c14_coq.correspondence(ctx, cases)
+        if not tie_ok or ctx.unshown:
+            # a broken obligation / tie: search harder where the disagreement lives
+            oracle_histories(ctx, ctx.budget(150, 600), focus="spec")
+            oracle_histories(ctx, ctx.budget(100, 400), focus="kwargs")
         oracle_scenarios(ctx)
-        oracle_threads(ctx, ctx.budget(25, 200), ctx.budget(6, 12))
+        oracle_threads(ctx, ctx.budget(20, 150), ctx.budget(6, 12))
     finally:
         sys.setrecursionlimit(old)
     ctx.trusted += [
